@@ -13,7 +13,11 @@ Correspondence for C17.
   metrics the tree must satisfy the executable `TreeInv` (`checkInv`).
 * `azeq_*`, `gnom_fwd`, `cass_fwd`: the wrapper models of `Model/GeodProj.lean` evaluated in binary64 on the kernel values
   (`Geodesic::Inverse/Direct` outputs obtained by the harness) against the projection classes.
-* `ix_*`, `gnom_rev`, `cass_rev`, `nn_bulk`, `nn_geo`, `nn_loadraw`: judged by the harness oracles on the implementation.
+* `ixs_*`: the kernel-parametric model of the Intersect search bookkeeping (`Model/IntersectSearch.lean`) run on the tables of
+  `Basic` / `Spherical` / `ConjugateDist` values the harness obtained from the private members of the real object: result,
+  coincidence indicator, segmode, the whole list of `All` and the five diagnostic counters must be reproduced; the comparators
+  `SetComp` / `RankPoint` / `Dist` and the constructor's constants are compared directly.
+* `ix_*`, `tl_*`, `gnom_rev`, `cass_rev`, `nn_bulk`, `nn_geo`, `nn_stats`, `nn_loadraw`: judged by the harness oracles on the implementation.
 -/
 namespace GeoVerif.Corr.C17
 open GeoVerif GeoVerif.Proto GeoVerif.VPTree
